@@ -392,12 +392,15 @@ let small_off r fmt64 =
   | 3 -> if rand_int r 4 = 0 then p2 32 else Z.of_int 0x1234
   | _ -> Z.of_int (rand_int r 70000)
 
-let gen_value r (c : ctx) k : v option =
+let gen_value ?(safe=false) r (c : ctx) k : v option =
+  let small_off r f = if safe then Z.of_int (rand_int r 70000) else small_off r f in
   match k with
   | 0 -> Some (Addr (match rand_int r 6 with
-                     | 0 -> Z.zero | 1 -> Z.pred (p2 (8 * c.asz)) | 2 -> if c.asz >= 8 then Z.pred (p2 64) else p2 (8 * c.asz)
-                     | 3 -> Z.pred (p2 64) | _ -> Z.of_int (rand_int r 100000)))
-  | 1 -> Some (Asym (rand_int r 3, Z.of_int (rand_int r 9 - 4)))
+                     | 0 -> Z.zero | 1 -> Z.pred (p2 (8 * c.asz))
+                     | 2 when not safe -> if c.asz >= 8 then Z.pred (p2 64) else p2 (8 * c.asz)
+                     | 3 when not safe -> Z.pred (p2 64)
+                     | _ -> Z.of_int (rand_int r (if c.asz = 1 then 200 else 30000))))
+  | 1 -> if safe then None else Some (Asym (rand_int r 3, Z.of_int (rand_int r 9 - 4)))
   | 2 -> Some (Blk (match rand_int r 6 with
                     | 0 -> [] | 1 -> rand_bytes r 127 | 2 -> rand_bytes r 128 | _ -> rand_bytes r (rand_int r 6)))
   | 3 -> Some (D1 (if rand_bool r then pick r u8s else rand_int r 256))
@@ -419,9 +422,9 @@ let gen_value r (c : ctx) k : v option =
   | 15 -> (match c.targets with
            | [] -> None
            | l -> let (u, i) = List.nth l (rand_int r (List.length l)) in Some (Ir (u, u, i)))
-  | 16 -> Some (Isym (rand_int r 3))
+  | 16 -> if safe then None else Some (Isym (rand_int r 3))
   | 17 -> Some (Irs (small_off r c.fmt64))
-  | 18 -> Some Lp
+  | 18 -> if safe && not c.has_lp then None else Some Lp
   | 19 -> if c.nloc = 0 then None else Some (Ll (rand_int r c.nloc))
   | 20 -> Some (Mi (small_off r c.fmt64))
   | 21 -> Some (Ma (small_off r c.fmt64))
@@ -476,7 +479,7 @@ let gen_script r ~multi_lp ~(mode : int) : op list =
       let lp =
         if (multi_lp || not !lp_used) && rand_int r 3 = 0 then begin
           lp_used := true;
-          let lv = if rand_int r 4 = 0 then pick r [| 2; 3; 4; 5 |] else (if uv >= 2 && uv <= 5 then uv else 4) in
+          let lv = if rand_int r 12 = 0 then pick r [| 2; 3; 4; 5 |] else (if uv >= 2 && uv <= 5 then uv else 4) in
           let la = if rand_int r 12 = 0 then (if ua = 4 then 8 else 4) else ua in
           (* same version unless the stream explores the documented mixed case (v5 unit, older program) *)
           Some ((lv, rand_bool r, la), rand_int r 3)
@@ -543,15 +546,27 @@ let gen_script r ~multi_lp ~(mode : int) : op list =
         for _ = 1 to rand_int r 4 do
           let k = rand_int r kinds in
           let k = if k = 15 && mode = 2 then 14 else k in
-          match gen_value r c k with
+          let safe = rand_int r 8 <> 0 in
+          match gen_value ~safe r c k with
           | Some x -> push (Set (u, e, names_for r k, x))
           | None -> ()
         done;
         if rand_int r 4 = 0 then push (Sib (u, e, rand_int r 4 <> 0));
-        if rand_int r 12 = 0 then push (Del (u, e, names_for r (rand_int r kinds)))) (List.rev added.(u))) group;
+        if rand_int r 12 = 0 then push (Del (u, e, names_for r (rand_int r kinds)))) (List.rev added.(u));
+      (* make the unit's line program used (it has no rows: a file index must reference it) *)
+      if nfiles > 0 && rand_int r 4 <> 0 then
+        push (Set (u, List.nth added.(u) (rand_int r (List.length added.(u))), 0x3a, Fi (Some (rand_int r nfiles))))) group;
     (* 5. late structure: reserved-then-added entries, extra children, deletions *)
     List.iter (fun u ->
       structure u (rand_int r 4);
+      (* reserved-then-added: usually every reserved id is added in the end *)
+      if rand_int r 8 <> 0 then begin
+        List.iter (fun c ->
+          let p = List.nth added.(u) (rand_int r (List.length added.(u))) in
+          push (A (u, c, p, pick r tags));
+          added.(u) <- c :: added.(u)) (List.rev pending.(u));
+        pending.(u) <- []
+      end;
       if rand_int r 10 = 0 && List.length added.(u) > 1 then begin
         let c = List.nth added.(u) (rand_int r (List.length added.(u))) in
         if c <> 0 then begin
